@@ -369,6 +369,29 @@ func (w *World) heal() {
 			break
 		}
 	}
+	// "the chains advance past every deadline" includes the CSV of openings that were broadcast
+	// late (by a recovery during this phase): keep mining while a real node's unspent swap
+	// output is confirmed but still short of its CSV (bounded)
+	for round := 0; round < 12 && !w.AllTerminal(); round++ {
+		short := false
+		for _, c := range []*SimChain{w.BTC, w.LBTC} {
+			for _, k := range rt.SortedKeys(c.Swaps) {
+				so := c.Swaps[k]
+				if so.SpentBy == "" && so.Owner >= 0 && so.Owner < len(w.Nodes) && w.Nodes[so.Owner].Real {
+					if conf := c.Confirmations(so.TxID); conf > 0 && conf < so.CSV+5 {
+						short = true
+					}
+				}
+			}
+		}
+		if !short {
+			break
+		}
+		w.Probe("heal:extended-for-late-opening")
+		w.BTC.Mine(burst)
+		w.LBTC.Mine(burst * 10)
+		w.Sim.Idle(40 * time.Second)
+	}
 	secs := h.Seconds
 	if secs == 0 {
 		secs = 900
